@@ -84,16 +84,20 @@ _P["C13"] = {
 }
 
 _P["C02"] = {
-    "explanation": "Spec/Walk.v: an independent decoder of the OF1.3/Nicira wire grammar (declared lengths, zero padding, legal codes, exact end); "
-                   "theorems in Properties/C02.v; every encoding the library produces for a random API recipe is walked by it.",
+    "explanation": "Spec/Walk.v: an independent decoder of the OF1.3/Nicira wire grammar (declared lengths, zero padding, legal codes, exact end). "
+                   "Theorem C02_built_messages_walk (Properties/C02.v, Proofs/WalkAllP.v + WalkMsgP.v, induction over recipes): every message any recipe builds whose arguments fit their fields "
+                   "(all 13 message kinds, all 26 action kinds with conntrack nesting to any depth, NAT, learn, note, set-field, match fields with masks, instructions, buckets, nested bundles) is accepted by the walker; "
+                   "correspondence: every encoding the library produces for a random API recipe is walked; coverage.theorem_hypothesis_holds_on says how many generated cases the theorem speaks about.",
     "trusted_base": _ENC_TRUSTED + ["Spec/Walk.v tables as a faithful transcription of OpenFlow 1.3.5 section 7, OVS nicira-ext.h and the ONF bundle extension (written without access to the documents)"],
-    "assumptions": [],
+    "assumptions": ["the theorem's hypothesis msg_ok: numbers within their field widths, counts equal to list lengths, masks as long as values, sizes below 65000 bytes, multipart type matching its body; port/queue statistics requests excluded (D10)"],
 }
 _P["C03"] = {
-    "explanation": "The independent decoder of Spec/Walk.v recovers from the library's bytes exactly the value the API calls built (every fixed field, match field "
-                   "with/without mask, instruction, action, bucket, NAT optional parts, learn specs, list order); theorems in Properties/C03.v.",
-    "trusted_base": _ENC_TRUSTED + ["Spec/Walk.v tables (see C02)"],
-    "assumptions": ["the expected value is the model's built value (its fields come from the recipe's arguments by position)"],
+    "explanation": "Theorem C03_built_messages_decode_to_themselves (Properties/C03.v): for every message recipe whose arguments fit their fields the independent decoder of Spec/Walk.v returns exactly the value the API calls built "
+                   "(every fixed field, match field with/without mask, instruction, action, bucket, NAT optional parts in presence-bit order, learn specs, nested bundled message, list order), by induction over recipes; "
+                   "C03_refuted: the port statistics request (finding D10); correspondence: the decoder's result on the library's bytes is compared with the built value for random recipes.",
+    "trusted_base": _ENC_TRUSTED + ["Spec/Walk.v tables (see C02); canon: three presentation differences of the wire reader (note padding, port-mod address slot width, empty packet-out payload)"],
+    "assumptions": ["the expected value is the model's built value (its fields come from the recipe's arguments by position)",
+                    "the theorem's hypothesis msg_ok (see C02)"],
 }
 
 _PKT_TRUSTED = ["Model/Proto.v decoders hand-written from package protocol (exact-capacity buffers); encoders via Model/Wire.v layouts",
